@@ -207,6 +207,37 @@ Example C06_ex_early_publish :
 Proof. vm_compute. split; reflexivity. Qed.
 
 (* ------------------------------------------------------------------------------------------
+   WebSocket control frames (Link/WsControl.v): the wrapper answers an inbound PING with PONG and an inbound CLOSE with
+   CLOSE from inside recv(), i.e. at any moment between two partial writes of a data frame.  For EVERY sequence of
+   _send_impl / _send_control_frame calls, every behaviour of the raw socket (accepts any number of bytes, would block,
+   OSError) and all mask keys: the accepted bytes followed by the buffer are the frames created, in creation order -
+   a control frame is never put inside a data frame, never lost when the socket would block; and once the buffer is
+   flushed the independent RFC 6455 parser reads the stream back as exactly those frames (FIN, own opcode, MASKED,
+   payload as given).  Found false of the unrepaired code (F-C06c/d, fixed in 9acff76). *)
+From PahoV Require Import Link.WsControl Link.WsControlProofs.
+Theorem C06_ws_frames_fifo_with_control : forall keyf ops,
+  let r := wrun_ops keyf ops in
+  w_wire r ++ sendbuf (w_t r) = concat (map frame_bytes (w_frames r)).
+Proof. exact ws_frames_fifo. Qed.
+Print Assumptions C06_ws_frames_fifo_with_control.
+
+Theorem C06_ws_stream_with_control : forall keyf ops,
+  (forall n, length (keyf n) = 4%nat) -> Forall wop_ok ops ->
+  let r := wrun_ops keyf ops in
+  sendbuf (w_t r) = [] ->
+  parse_frames (length (w_wire r)) (w_wire r) = (map frec_of (w_frames r), []).
+Proof. exact ws_control_stream. Qed.
+Print Assumptions C06_ws_stream_with_control.
+
+(* a PING arrives while 3 bytes of a data frame are out: the PONG (opcode 10) is queued behind the rest of the data
+   frame; a would-block loses nothing; at the end both frames are read back whole *)
+Example C06_ex_ws_control :
+  let r := wrun_ops ex_key [WData [16; 0] (Accept 3); WCtl 10 [7] Block; WData [16; 0] (Accept 100)] in
+  w_res r = [0; -1; 2] /\ sendbuf (w_t r) = [] /\
+  map (fun f => (f_opcode f, f_masked f, f_payload f)) (fst (parse_frames 100 (w_wire r))) = [(2, 1, [16; 0]); (10, 1, [7])].
+Proof. vm_compute. repeat split. Qed.
+
+(* ------------------------------------------------------------------------------------------
    The same discipline one level up, on the session model with the output queue (Session2): for
    ARBITRARY operation histories (publishes, acknowledgements, inbound traffic, reconnects, a transport
    that refuses writes or fails hard), between two reconnects the packets written are exactly, in order, the first
